@@ -304,6 +304,10 @@ func (r *DeviceLocal) CleanRemoteEntityCaches(remoteAddress *model.EntityAddress
 }
 
 func (r *DeviceLocal) ProcessCmd(datagram model.DatagramType, remoteDevice api.DeviceRemoteInterface) error {
+	if datagram.Header.AddressSource == nil || datagram.Header.AddressDestination == nil {
+		return errors.New("source or destination address is missing")
+	}
+
 	destAddr := datagram.Header.AddressDestination
 	localFeature := r.FeatureByAddress(destAddr)
 
